@@ -139,9 +139,16 @@ def r1(ctx):
             zero = [x for x in vals if x[0] == 'const' and x[2] == 0]
             rest = [x for x in vals if x not in zero]
             if answer == 'last':
-                ok = len(rest) == 1 and (match(rest[0], Call('slice::last', isd)) or match(rest[0], Call('unwrap_or', Call('slice::last', isd), Const(0))))
+                ok = len(rest) == 1 and (match(rest[0], Call('slice::last', isd)) or match(rest[0], Call('unwrap_or', Call('slice::last', isd), Const(0))) or
+                                         match(rest[0], ('index', isd, ('bin', 'Sub', Call('len', isd), Const(1)))))
             else:
                 ok = len(rest) == 1 and has(rest[0], Call('Iterator::min', ANY)) and has(rest[0], isd)
+                if not ok:
+                    # a running minimum over the row (`let mut m = row[0]; for &x in &row[1..] { if x < m { m = x } }`)
+                    from analysis.reduce import reduce_of
+                    rd_ = reduce_of(ctx.facts, b, peel(num))
+                    ok = rd_ is not None and rd_.op == 'min' and len(rd_.segs) == 1 and rd_.segs[0].kind == 'each' and not [c_ for c_ in rd_.segs[0].conds if False] and \
+                        has(rd_.segs[0].src, isd) and (rd_.init is None or has(rd_.init, isd))
         ctx.require(ok, b, 'answer|' + fn.rsplit('::', 1)[-1], '%s: numerator is the DP answer (%s of the cost matrix)' % (fn, answer),
                     '%s: numerator is %s' % (fn, show_in(b, num)))
         # denominator: 1.0 when not normalised, otherwise the length clamped to >= 1
